@@ -111,3 +111,31 @@ def call_expand(ex, st, args, kwargs, node):
 
 
 M.CALLEES['utils._vector_index_expand'] = call_expand
+
+
+@unit('utils._rand', props=('C10',))
+def u_rand(U):
+    """C10 mechanism 'seed normalisation': None or an int -> a fresh numpy Generator seeded with exactly that value;
+    anything else (a Generator object) is used as it is.  The global NumPy generator is never touched."""
+    from ttvc import rnd as R
+    fn = U.func('utils', '_rand')
+    for name, seed in (('int', z3.Int('seed')), ('None', NONE), ('generator', R.VGen('caller'))):
+        ex = U.executor(fn)
+        st = U.state()
+        st.vars.update(seed=seed)
+        res = U.run(ex, st)
+        if name == 'int':
+            U.cover('int-case-reachable', U.pre)
+        for p, o in res:
+            if o.kind != 'return' or not isinstance(o.value, R.VGen):
+                U.post(f'{name}-seed-gives-a-generator', p, False)
+                continue
+            g = o.value
+            if name == 'generator':
+                U.post('generator-object-is-used-as-it-is', p, z3.BoolVal(g is seed))
+            elif name == 'int':
+                ok = isinstance(g.origin, tuple) and g.origin[0] == 'default_rng' and M.is_intsort(g.origin[1])
+                U.post('integer-seed-is-passed-unchanged-to-default_rng (including 0 and negative values)', p,
+                       (Z(g.origin[1]) == seed) if ok else False)
+            else:
+                U.post('None-gives-a-fresh-default_rng', p, z3.BoolVal(isinstance(g.origin, tuple) and g.origin[1] is NONE))
